@@ -138,6 +138,14 @@ func decAlphabet(n *DecNode, decoder bool) []DecOp {
 	addBlk([]lz.Seq{{LitLen: 1, MatchLen: u32(W), Offset: 1}}, max(free, 0)+1, false)
 	addBlk([]lz.Seq{{LitLen: 0, MatchLen: 1<<32 - 1, Offset: 1}}, 0, false)
 	addBlk([]lz.Seq{{LitLen: 1<<32 - 1, MatchLen: 1, Offset: 1}}, 2, false)
+	// LitLens whose sum wraps around 2^32 with the overrunning sequence in front of the huge one: 1 + 7 + (2^32-8) on two literal bytes
+	{
+		op := DecOp{Kind: "WriteBlock", Seqs: []lz.Seq{{LitLen: 1, MatchLen: 1, Offset: 1}, {LitLen: 7, MatchLen: 1, Offset: 1}, {LitLen: 1<<32 - 8}}, Lits: 2}
+		if k := op.String(); !seenB[k] {
+			seenB[k] = true
+			ops = append(ops, op)
+		}
+	}
 	// LitLens whose sum wraps around 2^32: 1 + (2^32-1)
 	addBlk([]lz.Seq{{LitLen: 1, MatchLen: 1, Offset: 1}, {LitLen: 1<<32 - 1, MatchLen: 1, Offset: 1}}, 1, false)
 	addBlk([]lz.Seq{{LitLen: 0, MatchLen: 1, Offset: 1<<32 - 1}}, 0, false)
@@ -423,6 +431,9 @@ func applyDecOp(n *DecNode, op *DecOp) (next DecNode, v verdicts, ok bool) {
 			return
 		}
 		rejectedMalformed = km >= 0
+		if km >= 0 && err != nil && !isSizeRefusal(err) && kk != km {
+			v.add("C05", site+"|reject-k", "sequence %d of %s is the first malformed one, but the rejection reports k=%d (%v)", km, op, kk, err)
+		}
 		var wantN, wantL int
 		if err == nil {
 			wantN, wantL = m.AppendSeqs(&blk, len(blk.Sequences), true)
